@@ -2,7 +2,7 @@
    ownership discipline, hence (OwnProofs.program_ok_balanced) every normally terminating run is balanced.
 
    PROVED (this file): for the fragment
-       expressions  EPrim EVar EPart ELit EUse1 EUse2 EDerive EConcat EAnd                               (fexpr)
+       expressions  EPrim EVar EPart ELit EUse1 EUse2 EDerive EElem EConcat EAnd                               (fexpr)
        statements   SSkip SSeq SDecl SAssign SAssignPart SExpr SBlock SIf SWhile SDoWhile SBreak SContinue  (fstmt;
                     SSeq a b requires that a can fall through: no statements behind an unconditional break/continue)
      cexpr_ok / catom_ok / cstmt_ok: the code Own.compile emits passes own_check from every static state related (Rel)
@@ -379,7 +379,7 @@ Qed.
 Fixpoint fexpr (e : expr) : bool :=
   match e with
   | EPrim | EVar _ | EPart _ _ | ELit _ => true
-  | EUse1 a | EDerive a _ => fexpr a
+  | EUse1 a | EDerive a _ | EElem a _ => fexpr a
   | EUse2 a b | EConcat a b | EAnd a b => fexpr a && fexpr b
   | _ => false
   end.
@@ -554,6 +554,23 @@ Section Expr.
       + apply (step_new_temp cst cs1 G G1 T1 ra _ d G1 P1 E); auto using (r_sorted _ _ R1), (r_vars _ _ R1), (r_vnd _ _ R1).
         * rewrite add_temp_env. reflexivity.
         * intros s Hs. rewrite add_temp_next. cbn. apply (r_dead_lt _ _ R1) in Hs. lia.
+    - (* EElem *) destruct (cexpr inl sg e cst) as [[[ia ra] cs1]|] eqn:Ea; [|discriminate H].
+      destruct (IHe F _ _ _ _ G K Ea R) as [G1 [T1 [C1 P1]]]. pose proof (proj1 P1) as R1.
+      destruct ra as [|t|[s|s j|s]]; try discriminate H.
+      + (* element of a temporary list: deep copy into a temporary of its own while the list is still owned *)
+        unfold fresh in H. inversion H; subst. clear H.
+        pose proof P1 as [_ [_ [_ [_ [_ [_ Hra]]]]]]. cbn [res_ok] in Hra. destruct Hra as [Ht1 Ht2].
+        pose proof (ext_one cs1 (r_ne _ _ R1)) as E. set (d := c_next cs1) in *.
+        assert (W : ~ In d (o_own G1)) by (apply (Rel_fresh_notin cs1 G1 d R1); unfold d; lia).
+        exists (give d G1), (T1 ++ [d]). split.
+        * rewrite oc_seq, C1. cbn [own_check root]. unfold writable.
+          rewrite (proj2 (mem_false d (o_own G1)) W), (proj2 (mem_In t (o_own G1)) Ht2). reflexivity.
+        * apply (step_new_temp cst cs1 G G1 T1 (RTemp t) _ d G1 P1 E); auto using (r_sorted _ _ R1), (r_vars _ _ R1), (r_vnd _ _ R1).
+          -- rewrite add_temp_env. reflexivity.
+          -- intros s Hs. rewrite add_temp_next. cbn. apply (r_dead_lt _ _ R1) in Hs. lia.
+      + (* element of a variable: a reference into the variable *)
+        inversion H; subst. clear H. exists G1, T1. split; [exact C1|].
+        destruct P1 as [A1 [A2 [A3 [A4 [A5 [A6 A7]]]]]]. repeat (split; [assumption|]). exact A7.
     - (* EConcat *) apply andb_true_iff in F. destruct F as [Fa Fb].
       destruct (cexpr inl sg e1 cst) as [[[ia ra] cs1]|] eqn:Ea; [|discriminate H].
       destruct (cexpr inl sg e2 cs1) as [[[ib rb] cs2]|] eqn:Eb; [|discriminate H].
